@@ -682,6 +682,67 @@ func genSharedState(rt *rapid.T) ([]*lang.TopItem, []string) {
 		}
 		seqs = append(seqs, seq)
 	}
+	// an `and` group whose first record mentions the second one before it is declared; the functions use the
+	// two records with and without annotations (an un-annotated parameter flowing into the forward-typed
+	// field, a literal of the inner record, an annotated reader)
+	if rapid.Bool().Draw(rt, "andGroup") {
+		labels["and-group with a forward reference"] = true
+		outer, inner := "Cfg", "Lim"
+		tOuter, tInner := lang.TRec(outer), lang.TRec(inner)
+		fields := []lang.Field{{Name: "Lm", T: tInner}, {Name: "Nm", T: lang.TString}}
+		if rapid.Bool().Draw(rt, "fwdFieldLast") {
+			fields[0], fields[1] = fields[1], fields[0]
+		}
+		seq := []*lang.TopItem{{Types: []*lang.TypeDecl{
+			{Rec: &lang.RecDecl{Name: outer, Fields: fields}},
+			{Rec: &lang.RecDecl{Name: inner, Fields: []lang.Field{{Name: "Mx", T: lang.TInt}}}, And: true},
+		}, Label: "group"}}
+		innerLit := func() *lang.Expr {
+			return &lang.Expr{K: "reclit", Name: inner, T: tInner, Fields: []lang.FieldInit{{Name: "Mx", E: lang.Int(int64(rapid.IntRange(0, 9).Draw(rt, "mx")))}}}
+		}
+		outerLit := func(lm *lang.Expr) *lang.Expr {
+			e := &lang.Expr{K: "reclit", Name: outer, T: tOuter}
+			for _, f := range fields {
+				if f.Name == "Lm" {
+					e.Fields = append(e.Fields, lang.FieldInit{Name: "Lm", E: lm})
+				} else {
+					e.Fields = append(e.Fields, lang.FieldInit{Name: "Nm", E: lang.Str("d")})
+				}
+			}
+			return e
+		}
+		nfun := rapid.IntRange(2, 5).Draw(rt, "ngroupfun")
+		for k := 0; k < nfun; k++ {
+			fn++
+			f := &lang.FuncDecl{Name: fmt.Sprintf("fn%d", fn)}
+			switch rapid.IntRange(0, 5).Draw(rt, "groupShape") {
+			case 0, 1: // un-annotated parameter flows into the forward-typed field
+				f.Params = []lang.Param{{Name: "l", T: tInner}}
+				f.Ret = tOuter
+				f.Body = lang.Blk(outerLit(lang.Var("l", tInner)))
+				labels["un-annotated parameter into a forward-typed field"] = true
+			case 2: // annotated reader of the outer record
+				f.Params = []lang.Param{{Name: "c", T: tOuter, Annot: true}}
+				f.Ret = lang.TString
+				f.Body = lang.Blk(&lang.Expr{K: "field", Name: "Nm", T: lang.TString, Args: []*lang.Expr{lang.Var("c", tOuter)}})
+			case 3: // nested read through the forward-typed field
+				f.Params = []lang.Param{{Name: "c", T: tOuter, Annot: true}}
+				f.Ret = lang.TInt
+				f.Body = lang.Blk(&lang.Expr{K: "field", Name: "Mx", T: lang.TInt, Args: []*lang.Expr{
+					{K: "field", Name: "Lm", T: tInner, Args: []*lang.Expr{lang.Var("c", tOuter)}}}})
+			case 4: // complete literal
+				f.Ret = tOuter
+				f.Body = lang.Blk(outerLit(innerLit()))
+			default: // un-annotated reader: the field name decides the record
+				f.Params = []lang.Param{{Name: "c", T: tOuter}}
+				f.Ret = lang.TString
+				f.Body = lang.Blk(&lang.Expr{K: "field", Name: "Nm", T: lang.TString, Args: []*lang.Expr{lang.Var("c", tOuter)}})
+				labels["field read through an un-annotated parameter"] = true
+			}
+			seq = append(seq, &lang.TopItem{Func: f, Label: f.Name})
+		}
+		seqs = append(seqs, seq)
+	}
 	// merge the per-set sequences, each keeping its own order
 	pos := make([]int, len(seqs))
 	for {
